@@ -155,7 +155,10 @@ func Main() {
 	shards := flag.Int("shards", 1, "number of shards")
 	out := flag.String("out", "", "summary file")
 	replay := flag.Bool("replay", false, "only run the witness/replay groups (tolerance off)")
+	witness := flag.Int("witness", -1, "run only this witness/replay group (tolerance off)")
+	tolerant := flag.Bool("tolerant", false, "keep the known-finding tolerance on for witness groups")
 	shrinkTime := flag.Duration("shrinktime", 8*time.Second, "rapid shrink time")
+	flag.DurationVar(&hangLimit, "hanglimit", 20*time.Second, "a single Parse call that takes longer aborts the binary")
 	flag.Parse()
 	debug.SetMaxStack(256 << 20)
 
@@ -188,7 +191,11 @@ func Main() {
 	flag.Set("rapid.shrinktime", shrinkTime.String())
 
 	for gi, g := range meta.Groups {
-		if gi%*shards != *shard {
+		if *witness >= 0 {
+			if gi != *witness {
+				continue
+			}
+		} else if len(g.Case) > 0 || gi%*shards != *shard {
 			continue
 		}
 		x := &X{G: g, Meta: meta, KF: kf, Acc: acc}
@@ -200,9 +207,13 @@ func Main() {
 				continue
 			}
 			acc.WitnessRuns = append(acc.WitnessRuns, g.Witness)
-			o := p.Check(x, &c, true)
+			o := p.Check(x, &c, !*tolerant)
 			if o.Viol != nil {
 				acc.WitnessFails = append(acc.WitnessFails, g.Witness)
+				if acc.WitnessKinds == nil {
+					acc.WitnessKinds = map[string]string{}
+				}
+				acc.WitnessKinds[g.Witness] = o.Viol.Kind
 				o.Viol.Witness = g.Witness
 				o.Viol.Group = g.ID
 				acc.Notes = append(acc.Notes, fmt.Sprintf("witness %s: %s: %s", g.Witness, o.Viol.Kind, o.Viol.Diff))
